@@ -571,7 +571,8 @@ theorem ciWilson_eq (crit : Crit Rex) (conf : Confidence Rex) (n k : ℕ) (hk : 
   have hu1 := upperR_le_one n k z hn hz hk0 hkn'
   simp only [ciWilson, h1, h2, h3, if_false, zValue, hq, if_true, Outcome.bind_ok]
   -- both roots are proportions, so the clamp of `ci_wilson` is the identity
-  rw [finishWilson_eq_finish _ _ _ (by exact hl0) (by exact hu1)]
+  rw [finishWilson_eq_finish _ _ _ (by exact hl0) (by exact hu1) (by exact le_trans hlu hu1)
+    (by exact le_trans hl0 hlu)]
   cases conf with
   | twoSided l =>
     simp only [finish, shape]
@@ -671,20 +672,34 @@ theorem ciWilson_mirror (crit : Crit Rex) (conf : Confidence Rex) (n k : ℕ) (h
       congr 2 <;> apply RR.ext' <;> simp <;> linarith
   | upper l =>
     simp only [Confidence.flipped]
-    by_cases h : 1 < lo.val
-    · rw [new_err _ _ (by simp; linarith), new_err _ _ (by simp; linarith)]; rfl
-    · have h : lo.val ≤ 1 := not_lt.mp h
-      rw [new_ok _ _ (by simp; linarith), new_ok _ _ (by simp; linarith)]
-      simp only [liftI, Outcome.map, mirrorI, Interval.appliedFlipped]
-      congr 2 <;> apply RR.ext' <;> simp <;> linarith
+    have a1 : (fmin lo (NumOps.one : Rex)).val ≤ (NumOps.one : Rex).val := by
+      rw [fmin_val]; exact min_le_right _ _
+    have a2 : (NumOps.zero : Rex).val ≤ (fmax hi' (NumOps.zero : Rex)).val := by
+      rw [fmax_val]; exact le_max_right _ _
+    rw [new_ok _ _ a1, new_ok _ _ a2]
+    simp only [liftI, Outcome.map, mirrorI, Interval.appliedFlipped]
+    congr 2 <;> apply RR.ext'
+    · simp
+    · simp only [fmax_val, fmin_val, RR.sub_val, RR.zero_val, RR.one_val, id]
+      rw [hhi]
+      rcases le_total lo.val 1 with h | h
+      · rw [min_eq_left h, max_eq_left (by linarith)]
+      · rw [min_eq_right h, max_eq_right (by linarith)]; ring
   | lower l =>
     simp only [Confidence.flipped]
-    by_cases h : hi.val < 0
-    · rw [new_err _ _ (by simp; linarith), new_err _ _ (by simp; linarith)]; rfl
-    · have h : 0 ≤ hi.val := not_lt.mp h
-      rw [new_ok _ _ (by simp; linarith), new_ok _ _ (by simp; linarith)]
-      simp only [liftI, Outcome.map, mirrorI, Interval.appliedFlipped]
-      congr 2 <;> apply RR.ext' <;> simp <;> linarith
+    have a1 : (NumOps.zero : Rex).val ≤ (fmax hi (NumOps.zero : Rex)).val := by
+      rw [fmax_val]; exact le_max_right _ _
+    have a2 : (fmin lo' (NumOps.one : Rex)).val ≤ (NumOps.one : Rex).val := by
+      rw [fmin_val]; exact min_le_right _ _
+    rw [new_ok _ _ a1, new_ok _ _ a2]
+    simp only [liftI, Outcome.map, mirrorI, Interval.appliedFlipped]
+    congr 2 <;> apply RR.ext'
+    · simp only [fmax_val, fmin_val, RR.sub_val, RR.zero_val, RR.one_val, id]
+      rw [hlo]
+      rcases le_total 0 hi.val with h | h
+      · rw [max_eq_left h, min_eq_left (by linarith)]
+      · rw [max_eq_right h, min_eq_right (by linarith)]; ring
+    · simp
 
 /-! ### the clamp of `ci_wilson` on a rounded carrier -/
 
@@ -717,10 +732,12 @@ theorem finishWilson_ok_unit {fl : ℝ → ℝ} (conf : Confidence (RR fl)) (m s
     exact ⟨_, _, hI, hlo, hle, hhi⟩
   | upper l =>
     obtain ⟨hI, hle⟩ := liftI_new_ok _ _ _ h
-    exact ⟨_, _, hI, hlo, hle, le_rfl⟩
+    refine ⟨_, _, hI, ?_, hle, le_rfl⟩
+    rw [fmin_val]; exact le_min hlo (by simp)
   | lower l =>
     obtain ⟨hI, hle⟩ := liftI_new_ok _ _ _ h
-    exact ⟨_, _, hI, le_rfl, hle, hhi⟩
+    refine ⟨_, _, hI, le_rfl, hle, ?_⟩
+    rw [fmax_val]; exact max_le hhi (by simp)
 
 /-- every interval `ci_wilson` returns lies in `[0, 1]`, whatever the rounding function, the level
     and the value the quantile routine returns -/
